@@ -38,6 +38,8 @@ func TestVerifC06E2E(t *testing.T) {
 		id := id
 		t.Run(fmt.Sprintf("schedule-%d", id), func(t *testing.T) {
 			rng := verifCaseRand(id)
+			// monitors fire while the schedule runs: name the case first, record the steps at the end
+			em.BeginCase(id, fmt.Sprintf("real host node, v1 contract with data, reorgs (revision block dropped: %v)", id%2 == 0))
 			seed := func(tag byte) []byte {
 				b := make([]byte, 32)
 				b[0], b[1], b[2] = tag, byte(id), byte(id>>8)
@@ -63,7 +65,7 @@ func TestVerifC06E2E(t *testing.T) {
 			}
 			var best []blockInfo // best[h-1] = block at height h
 			var fcid types.FileContractID
-			var ws, we uint64
+			var ws, we, latestRev uint64
 			haveContract := false
 			var ops, obs []string
 			formedOn := func() bool {
@@ -92,6 +94,19 @@ func TestVerifC06E2E(t *testing.T) {
 				}
 				if c.Status == contracts.ContractStatusFailed {
 					em.Monitor("contract-with-held-data-failed", fmt.Sprintf("tip %v: status failed (window %d-%d)", node.Chain.Tip(), ws, we))
+				}
+				// the latest revision counts as confirmed iff the best chain holds it
+				onChain := uint64(0) // the formation transaction carries revision 0
+				for _, b := range best {
+					if b.rev != nil {
+						onChain = *b.rev
+					}
+				}
+				if c.FormationConfirmed && c.RevisionConfirmed && onChain != latestRev {
+					em.Monitor("revision-reported-confirmed-but-not-on-best-chain", fmt.Sprintf("tip %v: latest revision %d, best chain holds %d", node.Chain.Tip(), latestRev, onChain))
+				}
+				if c.FormationConfirmed && !c.RevisionConfirmed && onChain == latestRev {
+					em.Monitor("revision-on-best-chain-reported-unconfirmed", fmt.Sprintf("tip %v: revision %d", node.Chain.Tip(), latestRev))
 				}
 				return fmt.Sprintf("LRow %s %v %v", c06St1[c.Status], c.FormationConfirmed, c.ResolutionHeight != 0)
 			}
@@ -214,7 +229,14 @@ func TestVerifC06E2E(t *testing.T) {
 			testutil.MineAndSync(t, node, node.Wallet.Address(), int(network.MaturityDelay+5))
 			record()
 
+			// even schedules reorganise the block confirming the host's final revision away (before
+			// the proof window, inside the submission buffer); all schedules may reorganise the
+			// proof away inside the window
+			dropRevision := id%2 == 0
 			duration := uint64(7 + rng.Intn(5))
+			if dropRevision {
+				duration = uint64(11 + rng.Intn(3))
+			}
 			settings, err := node.Settings.RHP2Settings()
 			if err != nil {
 				t.Fatal(err)
@@ -250,41 +272,89 @@ func TestVerifC06E2E(t *testing.T) {
 				t.Fatal(err)
 			}
 			fcid, ws, we, haveContract = rev.Revision.ParentID, rev.Revision.WindowStart, rev.Revision.WindowEnd, true
+			latestRev = rev.Revision.RevisionNumber
 
 			mine(1) // formation confirmed
 
 			// the renter uploads data: the host now risks collateral and holds the sectors
 			var roots []types.Hash256
-			for i := 0; i < 1+rng.Intn(3); i++ {
-				var sector [rhp2.SectorSize]byte
-				rng.Read(sector[:256])
-				root := rhp2.SectorRoot(&sector)
-				if err := node.Volumes.Write(root, &sector); err != nil {
+			upload := func(sectors int) {
+				var added []types.Hash256
+				for i := 0; i < sectors; i++ {
+					var sector [rhp2.SectorSize]byte
+					rng.Read(sector[:256])
+					root := rhp2.SectorRoot(&sector)
+					if err := node.Volumes.Write(root, &sector); err != nil {
+						t.Fatal(err)
+					}
+					added = append(added, root)
+				}
+				roots = append(roots, added...)
+				amount, collateral := types.NewCurrency64(100), types.NewCurrency64(200)
+				rev.Revision.RevisionNumber += uint64(1 + rng.Intn(3))
+				rev.Revision.Filesize = rhp2.SectorSize * uint64(len(roots))
+				rev.Revision.FileMerkleRoot = rhp2.MetaRoot(roots)
+				rev.Revision.ValidProofOutputs[0].Value = rev.Revision.ValidProofOutputs[0].Value.Sub(amount)
+				rev.Revision.ValidProofOutputs[1].Value = rev.Revision.ValidProofOutputs[1].Value.Add(amount)
+				rev.Revision.MissedProofOutputs[0].Value = rev.Revision.MissedProofOutputs[0].Value.Sub(amount)
+				rev.Revision.MissedProofOutputs[1].Value = rev.Revision.MissedProofOutputs[1].Value.Sub(collateral)
+				rev.Revision.MissedProofOutputs[2].Value = rev.Revision.MissedProofOutputs[2].Value.Add(collateral.Add(amount))
+				sign(&rev)
+				updater, err := node.Contracts.ReviseContract(fcid)
+				if err != nil {
 					t.Fatal(err)
 				}
-				roots = append(roots, root)
+				for _, root := range added {
+					updater.AppendSector(root)
+				}
+				if err := updater.Commit(rev, contracts.Usage{StorageRevenue: amount, RiskedCollateral: collateral}); err != nil {
+					t.Fatal(err)
+				}
+				updater.Close()
+				latestRev = rev.Revision.RevisionNumber
 			}
-			amount, collateral := types.NewCurrency64(100), types.NewCurrency64(200)
-			rev.Revision.RevisionNumber += uint64(1 + rng.Intn(3))
-			rev.Revision.Filesize = rhp2.SectorSize * uint64(len(roots))
-			rev.Revision.FileMerkleRoot = rhp2.MetaRoot(roots)
-			rev.Revision.ValidProofOutputs[0].Value = rev.Revision.ValidProofOutputs[0].Value.Sub(amount)
-			rev.Revision.ValidProofOutputs[1].Value = rev.Revision.ValidProofOutputs[1].Value.Add(amount)
-			rev.Revision.MissedProofOutputs[0].Value = rev.Revision.MissedProofOutputs[0].Value.Sub(amount)
-			rev.Revision.MissedProofOutputs[1].Value = rev.Revision.MissedProofOutputs[1].Value.Sub(collateral)
-			rev.Revision.MissedProofOutputs[2].Value = rev.Revision.MissedProofOutputs[2].Value.Add(collateral.Add(amount))
-			sign(&rev)
-			updater, err := node.Contracts.ReviseContract(fcid)
-			if err != nil {
-				t.Fatal(err)
+			upload(1 + rng.Intn(3))
+
+			if dropRevision {
+				// the renter puts this revision on chain right away (an earlier, non-empty revision)
+				revTxn := types.Transaction{
+					FileContractRevisions: []types.FileContractRevision{rev.Revision},
+					Signatures: []types.TransactionSignature{
+						{ParentID: types.Hash256(fcid), CoveredFields: types.CoveredFields{FileContractRevisions: []uint64{0}}, Signature: rev.RenterSignature[:]},
+						{ParentID: types.Hash256(fcid), CoveredFields: types.CoveredFields{FileContractRevisions: []uint64{0}}, Signature: rev.HostSignature[:], PublicKeyIndex: 1},
+					},
+				}
+				fee := node.Chain.RecommendedFee().Mul64(1000)
+				revTxn.MinerFees = append(revTxn.MinerFees, fee)
+				toSign, err := node.Wallet.FundTransaction(&revTxn, fee, true)
+				if err != nil {
+					t.Fatal(err)
+				}
+				node.Wallet.SignTransaction(&revTxn, toSign, types.CoveredFields{WholeTransaction: true})
+				if _, err := node.Chain.AddPoolTransactions(append(node.Chain.UnconfirmedParents(revTxn), revTxn)); err != nil {
+					t.Fatal(err)
+				}
+				mine(1)
+				if n := len(best); best[n-1].rev == nil || *best[n-1].rev != latestRev {
+					t.Fatalf("early revision %d was not mined", latestRev)
+				}
+				em.Count("early-revision-confirmed")
+				// the final revision is made one block before the submission buffer opens; the host
+				// broadcasts it at tip window_start-5 and it is mined at window_start-4
+				mine(int(ws - 6 - node.Chain.Tip().Height))
+				upload(1)
+				mine(2)
+				if n := len(best); best[n-1].rev == nil || *best[n-1].rev != latestRev {
+					em.Count("final-revision-not-mined-at-start-minus-4")
+				} else {
+					// bury it under 1-2 blocks, then replace it and them by a longer empty branch:
+					// the revision is no longer on the best chain and not in the top reverted block
+					extra := 1 + rng.Intn(2)
+					mine(extra)
+					reorg(extra + 1)
+					em.Count(fmt.Sprintf("revision-reorged-out:depth-%d", extra+1))
+				}
 			}
-			for _, root := range roots {
-				updater.AppendSector(root)
-			}
-			if err := updater.Commit(rev, contracts.Usage{StorageRevenue: amount, RiskedCollateral: collateral}); err != nil {
-				t.Fatal(err)
-			}
-			updater.Close()
 
 			// up to the block before the window: the final revision is broadcast and confirmed
 			mine(int(ws - 1 - node.Chain.Tip().Height))
@@ -299,9 +369,21 @@ func TestVerifC06E2E(t *testing.T) {
 					break
 				}
 				mine(ahead) // the proof is mined in the second block after window_start-1
+				// keep block window_start-1 (the proof's seed) and the block confirming the final
+				// revision: a revision cannot be confirmed again once the window has opened, so a
+				// reorganisation dropping it then is outside what any host can survive
+				keep := ws - 1
+				for h, b := range best {
+					if b.rev != nil && *b.rev == latestRev && uint64(h+1) > keep {
+						keep = uint64(h + 1)
+					}
+				}
 				depth := 1 + rng.Intn(ahead)
-				if node.Chain.Tip().Height-uint64(depth) < ws-1 {
-					depth = int(node.Chain.Tip().Height - (ws - 1))
+				if node.Chain.Tip().Height-uint64(depth) < keep {
+					depth = int(node.Chain.Tip().Height - keep)
+				}
+				if depth < 1 {
+					continue
 				}
 				reorg(depth)
 			}
@@ -318,7 +400,6 @@ func TestVerifC06E2E(t *testing.T) {
 			em.Count("final:" + c.Status.String())
 
 			benefit := rev.Revision.MissedHostPayout().Cmp(rev.Revision.ValidHostPayout()) < 0
-			em.BeginCase(id, fmt.Sprintf("v1 contract, window %d-%d, %d reorg(s)", ws, we, reorgs))
 			em.Step(fmt.Sprintf("LStart {| p_ws := %d; p_we := %d; p_neg := %d; p_rev0 := 1; p_rb := 10; p_benefit := %v; p_held := true |}", ws, we, negHeight, benefit), "LNone")
 			for i := range ops {
 				em.Step(ops[i], obs[i])
